@@ -535,6 +535,9 @@ func genC14Plan(r *zsim.Rng) *sysPlan {
 		end = sysEvent{Kind: "sig", Sig: "INT", DelayMs: genDelay(r)}
 	case 5:
 		end = sysEvent{Kind: "hup", DelayMs: genDelay(r)}
+		if r.Bool() {
+			end = sysEvent{Kind: "sig", Sig: "HUP", DelayMs: genDelay(r)}
+		}
 	case 6:
 		end.Keys = "alt-m" // become
 	case 7:
@@ -545,6 +548,7 @@ func genC14Plan(r *zsim.Rng) *sysPlan {
 	if sigEnd {
 		end = sysEvent{Kind: "sig", Sig: pick(r, "INT", "INT", "TERM"), DelayMs: 2500 + genDelay(r)}
 	}
+	p.StdoutClosed = r.Chance(1, 10)
 	p.Events = append(p.Events, end)
 	return p
 }
@@ -614,6 +618,12 @@ func runC14(c *runCtx) {
 		for _, a := range r.becameLeft {
 			c.violate("exit.unclean", "at the instant fzf replaced itself with %q: child process %s still running and never killed", r.became, a)
 		}
+	}
+	for _, a := range r.pipeLeft {
+		c.violate("exit.unclean", "fzf's standard output is closed, its first write ends it (SIGPIPE): child process %s still running and never killed", a)
+	}
+	for _, a := range r.sigLeft {
+		c.violate("exit.unclean", "fzf was ended by SIGHUP: child process %s still running and never killed", a)
 	}
 	if r.tty.Overflow > 0 {
 		c.count("probe.write_past_right_margin", 1)
